@@ -249,6 +249,18 @@ class Array(Base):
         return arg
 
     def _wrap_numpy(self, func, *args, **kwargs):
+        if (
+            func.__name__ == "power"
+            and len(args) > 1
+            and isinstance(args[0], (self.__class__, Quantity))
+            and isinstance(args[1], (self.__class__, Quantity))
+        ):
+            # The exponent is a pure number: use the value of a dimensionless
+            # Array or Quantity (anything else cannot be an exponent)
+            exponent = args[1]
+            if isinstance(exponent, self.__class__):
+                exponent = exponent._array * exponent.unit
+            args = (args[0], exponent.to("dimensionless").magnitude) + args[2:]
         if func.__name__ not in APPLY_OP_TO_UNIT:
             # Operands with different units cannot be combined as raw numbers:
             # express them in the unit of this array (or fail if incompatible)
